@@ -8,6 +8,7 @@ import (
 	"errors"
 	"time"
 
+	"github.com/attestantio/go-eth2-client/spec/phase0"
 	specqbft "github.com/bloxapp/ssv-spec/qbft"
 	spectypes "github.com/bloxapp/ssv-spec/types"
 	"go.uber.org/zap"
@@ -244,5 +245,128 @@ func ZZHarnessC10LeaderProposal() {
 		zzReach("proposed")
 	}
 	peer.drain(s, "justified-proposal", true)
+	zzReach("end")
+}
+
+// ---- partial-signature messages (C10, second half)
+
+// what a correct operator's duty runner sends for one duty of the role, in order (types as built by
+// runner.executeDuty / ProcessConsensus / ProcessPreConsensus): an optional pre-consensus message, for roles
+// with a consensus phase its round-1 prepare and commit, and the post-consensus message.
+type zzDutyMsg struct {
+	partial *spectypes.SignedPartialSignatureMessage
+	cons    *specqbft.SignedMessage
+	after   int64 // earliest receive offset from slot start (seconds)
+}
+
+func zzDutyMessages(role spectypes.BeaconRole, msgID spectypes.MessageID, signer spectypes.OperatorID, slot uint64) []zzDutyMsg {
+	sig := func() []byte {
+		s := make([]byte, 96)
+		s[0] = 1
+		return s
+	}
+	part := func(t spectypes.PartialSigMsgType, nroots int) *spectypes.SignedPartialSignatureMessage {
+		m := &spectypes.SignedPartialSignatureMessage{Signature: sig(), Signer: signer,
+			Message: spectypes.PartialSignatureMessages{Type: t, Slot: phase0.Slot(slot)}}
+		for i := 0; i < nroots; i++ {
+			var root [32]byte
+			root[0], root[1] = byte(t)+1, byte(i)
+			m.Message.Messages = append(m.Message.Messages, &spectypes.PartialSignatureMessage{PartialSignature: sig(), SigningRoot: root, Signer: signer})
+		}
+		return m
+	}
+	cons := func(t specqbft.MessageType) *specqbft.SignedMessage {
+		var root [32]byte
+		root[0] = 9
+		return &specqbft.SignedMessage{Signature: sig(), Signers: []spectypes.OperatorID{signer},
+			Message: specqbft.Message{MsgType: t, Height: specqbft.Height(slot), Round: 1, Identifier: msgID[:], Root: root}}
+	}
+	var wait int64
+	var pre spectypes.PartialSigMsgType
+	hasPre, hasCons := false, true
+	switch role {
+	case spectypes.BNRoleAttester, spectypes.BNRoleSyncCommittee:
+		wait = 4
+	case spectypes.BNRoleAggregator:
+		wait, pre, hasPre = 8, spectypes.SelectionProofPartialSig, true
+	case spectypes.BNRoleSyncCommitteeContribution:
+		wait, pre, hasPre = 8, spectypes.ContributionProofs, true
+	case spectypes.BNRoleProposer:
+		wait, pre, hasPre = 0, spectypes.RandaoPartialSig, true
+	case spectypes.BNRoleValidatorRegistration:
+		pre, hasPre, hasCons = spectypes.ValidatorRegistrationPartialSig, true, false
+	case spectypes.BNRoleVoluntaryExit:
+		pre, hasPre, hasCons = spectypes.VoluntaryExitPartialSig, true, false
+	}
+	var out []zzDutyMsg
+	if hasPre {
+		out = append(out, zzDutyMsg{partial: part(pre, 1), after: wait})
+	}
+	if hasCons {
+		out = append(out, zzDutyMsg{cons: cons(specqbft.PrepareMsgType), after: wait})
+		out = append(out, zzDutyMsg{cons: cons(specqbft.CommitMsgType), after: wait})
+		out = append(out, zzDutyMsg{partial: part(spectypes.PostConsensusPartialSig, 1), after: wait})
+	}
+	return out
+}
+
+// ZZHarnessC10Duties: role ROLE; a correct committee member performs two duties of the role at symbolic slots
+// s1 < s2 (as the beacon chain can assign them: attester / aggregator / registration / exit duties in different
+// epochs - possibly adjacent slots across the epoch boundary -, proposer and sync-committee duties at any later
+// slot); a correct peer validates everything it sends, each message received inside the first two seconds of
+// its round-1 window. REORDER=0: in order => every message accepted. REORDER=1: two adjacent messages of a duty
+// swapped on the wire => nothing is classified as reject.
+func ZZHarnessC10Duties() {
+	role := zzRoles[int(zzParam("ROLE"))]
+	reorder := zzParam("REORDER") == 1
+	mv := zzValidator(zzGenesis)
+	share := zzShare(4)
+	pk := make([]byte, 48)
+	msgID := spectypes.NewMsgID(mv.netCfg.Domain, pk, role)
+	signer := spectypes.OperatorID(5)
+	s1 := zzNondetRange("slot1", 100, 164)
+	s2 := s1 + zzNondetRange("gap", 1, 64)
+	switch role {
+	case spectypes.BNRoleAttester, spectypes.BNRoleAggregator, spectypes.BNRoleValidatorRegistration, spectypes.BNRoleVoluntaryExit:
+		zzAssume(s2/32 > s1/32) // at most one such duty per validator and epoch
+	}
+	slots := []uint64{s1, s2}
+	switch role {
+	case spectypes.BNRoleSyncCommittee, spectypes.BNRoleSyncCommitteeContribution, spectypes.BNRoleProposer:
+		// duties at every slot of a sync-committee period / several proposals in one epoch: a third and fourth duty
+		s3 := s2 + zzNondetRange("gap2", 1, 3)
+		slots = append(slots, s3, s3+1)
+	}
+	var lastRecv int64
+	for d, slot := range slots {
+		msgs := zzDutyMessages(role, msgID, signer, slot)
+		if reorder && d == 0 && len(msgs) >= 2 {
+			k := zzChoose("swap", len(msgs)-1)
+			msgs[k], msgs[k+1] = msgs[k+1], msgs[k]
+		}
+		for _, m := range msgs {
+			recv := int64(zzGenesis) + int64(slot)*12 + m.after + int64(zzNondetRange("recvOffset", 0, 2))
+			zzAssume(recv >= lastRecv)
+			lastRecv = recv
+			mv.netCfg.Beacon.(*zzBeacon).now = recv
+			var err error
+			if m.partial != nil {
+				_, err = mv.validatePartialSignatureMessage(share, m.partial, msgID, func() error { return nil })
+			} else {
+				_, _, err = mv.validateConsensusMessage(share, m.cons, msgID, time.Unix(recv, 0), func() error { return nil })
+			}
+			if err != nil {
+				zzReach("not-accepted")
+				var ve Error
+				if errors.As(err, &ve) {
+					zzAssert(!ve.Reject(), "honest-duty-message-never-rejected")
+					zzReach("ignored:" + ve.text)
+				}
+				zzAssert(reorder, "in-order-timely-honest-duty-message-accepted")
+			} else {
+				zzReach("accepted")
+			}
+		}
+	}
 	zzReach("end")
 }
